@@ -2056,7 +2056,10 @@ fire("c11-tc-coefficients-overwrite", ["C11"], COL,
      "            term2coeff[term] = term2coeff.get(term, 0) + coeff\n",
      "            term2coeff[term] = coeff\n",
      "P/TermCollector.map_sum/coefficients-added")
-fire("c11-tc-entry-dropped", ["C11"], COL,
+# (x**0 is 1 wherever it evaluates: dropping an entry whose exponents cancelled
+# preserves the value -- decided by the interpretive judge; the structural
+# partition rule alone called this a violation until round 3)
+silent("c11-tc-cancelled-entry-dropped", ["C11"], COL,
      "            if self.get_dependencies(term) <= self.parameters:\n"
      "                coefficients.append(term)\n"
      "            else:\n"
@@ -2064,8 +2067,17 @@ fire("c11-tc-entry-dropped", ["C11"], COL,
      "            if self.get_dependencies(term) <= self.parameters:\n"
      "                coefficients.append(term)\n"
      "            elif exp != 0:\n"
+     "                cleaned_base2exp[base] = exp\n")
+fire("c11-tc-entry-dropped", ["C11"], COL,
+     "            if self.get_dependencies(term) <= self.parameters:\n"
+     "                coefficients.append(term)\n"
+     "            else:\n"
      "                cleaned_base2exp[base] = exp\n",
-     "P/TermCollector.split_term/partition")
+     "            if self.get_dependencies(term) <= self.parameters:\n"
+     "                coefficients.append(term)\n"
+     "            elif exp != 1:\n"
+     "                cleaned_base2exp[base] = exp\n",
+     "P0/TermCollector.split_term/split-semantics")
 silent_multi("c11-tc-renamed-locals", ["C11"], COL, [
     ("        coefficients = []\n", "        coeffs = []\n"),
     ("                coefficients.append(term)", "                coeffs.append(term)"),
@@ -2953,3 +2965,29 @@ silent("c18-silent-neg-loop", ["C18"], GAF,
 silent("c18-silent-sub-direct", ["C18"], GAF,
        "        return self + (-other)",
        "        return self.__add__(-other)")
+
+# -- generated-code judge for the optimizer (C05): the expression the inliner
+# produces is decided as a dispatch routine, whatever helpers build it
+fire("c05-generated-inner-fallback-is-unsupported", ["C05"], OPF,
+     "                            func=Name(id=_TMP_PREFIX + \"method\", ctx=Load())),\n"
+     "                        orelse=fallback_call),\n",
+     "                            func=Name(id=_TMP_PREFIX + \"method\", ctx=Load())),\n"
+     "                        orelse=_replace(node, func=Attribute(value=self_sym,\n"
+     "                            attr=\"handle_unsupported_expression\", ctx=Load()))),\n",
+     "P0/optimizer/generated-code/inline_rec=True,inline_cache=False")
+fire("c05-generated-hit-returns-key", ["C05"], OPF,
+     "                        body=Name(id=_TMP_PREFIX + \"result\", ctx=Load()),\n",
+     "                        body=Name(id=_TMP_PREFIX + \"cache_key\", ctx=Load()),\n",
+     "P0/optimizer/generated-code/inline_rec=False,inline_cache=True")
+fire("c05-generated-names-its-own-mapper-method", ["C05"], OPF,
+     "                            getattr_sym(expr, Constant(value=\"mapper_method\")))),\n",
+     "                            getattr_sym(self_sym, Constant(value=\"mapper_method\")))),\n",
+     "P0/optimizer/generated-code/inline_rec=True,inline_cache=False")
+silent("c05-generated-helpers-at-module-level", ["C05"], OPF,
+     "            def expr_assign(name, value):\n"
+     "                return NamedExpr(\n"
+     "                        target=Name(id=name, ctx=Store()),\n"
+     "                        value=value)\n",
+     "            expr_assign = lambda name, value: NamedExpr(  # noqa: E731\n"
+     "                        target=Name(id=name, ctx=Store()),\n"
+     "                        value=value)\n")
